@@ -407,7 +407,7 @@ def _chain_has(exc, cls):
 
 
 def translate(exe, query, outdir, ld=False, io_plan=None, abort_plan=None, extra_seam=None, stream_cache=None, apply_only=False,
-              wipe_registries_after=False):
+              wipe_registries_after=False, forget_registered_md_after=False):
     """Run one translation with the real executor. Returns a JSON-able outcome."""
     from pathlib import Path
     n0 = len(_generated)
@@ -442,6 +442,8 @@ def translate(exe, query, outdir, ld=False, io_plan=None, abort_plan=None, extra
                     import func_adl_xAOD.common.cpp_types as ctyp
                     ctyp.g_method_type_dict = {}
                     ctyp.g_toplevel_ns = {}
+                if forget_registered_md_after:
+                    exe._extended_md = {}  # attribution re-run for K5 only
                 return {"outcome": "abandoned", "lines": 0, "io_calls": []}
             info = exe.write_cpp_files(exe.apply_ast_transformations(a), outdir)
         finally:
